@@ -311,7 +311,7 @@ class DegGen(gen.Gen):
             el = self.elem_for_shape(tuple(sh))
             V = ufl.FunctionSpace(self.mesh, el)
             assert tuple(int(i) for i in V.value_shape) == tuple(sh), (sh, V.value_shape, describe(el))
-            if args and rng.random() < 0.3:
+            if args and rng.random() < 0.5:
                 t = ufl.Argument(V, rng.randint(0, 1))
             else:
                 t = ufl.Coefficient(V)
@@ -332,6 +332,10 @@ class DegGen(gen.Gen):
         d = self.rng.randint(0 if lo is None else lo, hi)
         if top and self.none_deg and self.rng.random() < 0.3:
             return FiniteElement("Quadrature", self.cell, None, tuple(sh), ufl.identity_pullback, L2)
+        if d >= 2 and self.rng.random() < 0.25:
+            # enriched element: the largest complete space it contains is smaller than the degree that bounds it
+            sub = self.rng.randint(0, d - 1)
+            return FiniteElement("P%d+bubbles" % sub, self.cell, d, tuple(sh), ufl.identity_pullback, H1, subdegree=sub)
         return FiniteElement("Lagrange" if d else "DG", self.cell, d, tuple(sh), ufl.identity_pullback, H1 if d else L2)
 
     def piola(self, lead=()):
@@ -340,8 +344,8 @@ class DegGen(gen.Gen):
         from ufl.sobolevspace import HDiv, HCurl
         d = self.rng.randint(1, 3)
         if self.rng.random() < 0.5:
-            return FiniteElement("RT", self.cell, d, tuple(lead) + (self.tdim,), pb.contravariant_piola, HDiv)
-        return FiniteElement("N1curl", self.cell, d, tuple(lead) + (self.tdim,), pb.covariant_piola, HCurl)
+            return FiniteElement("RT", self.cell, d, tuple(lead) + (self.tdim,), pb.contravariant_piola, HDiv, subdegree=d - 1)
+        return FiniteElement("N1curl", self.cell, d, tuple(lead) + (self.tdim,), pb.covariant_piola, HCurl, subdegree=d - 1)
 
     def dpiola(self):
         from utils import FiniteElement
